@@ -711,6 +711,96 @@ def rule_specifiers(chk, prog, tier):
     r.exhaustive = True
 
 
+# ------------------------------------------------------------------ C05.e compatibility and composite types
+
+def rule_compat(chk, prog, tier):
+    r = chk.rule('C05.e', 'typecompatible is the relation of C11 6.2.7 / 6.7.2.2p4 / 6.7.3p10 / 6.7.6 on a universe of derived types (qualified pointers, arrays of known/unknown size, function types, structures, enums), symmetric in its arguments; the composite of an array of known size and one of unknown size knows the size',
+                 floor=500, oracle='C11 6.2.7p1-3, 6.7.6.1p2, 6.7.6.2p6, 6.7.6.3p15')
+    tc = prog.require_func('typecompatible', 'type.c')
+    tcomp = prog.require_func('typecomposite', 'type.c')
+    def runner(it):
+        it.MAX_STEPS = 10 ** 8
+        w = World(prog, it=it, target='x86_64-sysv')
+        QC = ev(prog, 'QUALCONST')
+        U = {}     # name -> (type pointer, descriptor)
+        def add(name, t, desc): U[name] = (t, desc)
+        for b in ('int', 'uint', 'long', 'char', 'schar', 'double'):
+            add(b, w.t(b), ('basic', b))
+        e1 = w.mkenum(w.t('uint')); e2 = w.mkenum(w.t('uint')); e3 = w.mkenum(w.t('int'))
+        add('enum1:uint', e1, ('enum', 1, 'uint')); add('enum2:uint', e2, ('enum', 2, 'uint')); add('enum3:int', e3, ('enum', 3, 'int'))
+        s1 = w.mkstruct(size=8, align=4); s2 = w.mkstruct(size=8, align=4)
+        add('struct1', s1, ('struct', 1)); add('struct2', s2, ('struct', 2))
+        def ptr(name, q=0):
+            t = w.mkptr(U[name][0], q); return t, ('ptr', U[name][1], q)
+        for n in ('int', 'uint', 'char', 'struct1', 'enum1:uint'):
+            t, d = ptr(n); add('ptr(%s)' % n, t, d)
+        t, d = ptr('int', QC); add('ptr(const int)', t, d)
+        t, d = ptr('ptr(int)'); add('ptr(ptr(int))', t, d)
+        def arr(name, n):
+            t = it.call('mkarraytype', [U[name][0], 0, n or 0])
+            if n:
+                t.obj.f[('u', 'array', 'length')] = w.mkexpr('EXPRCONST', w.t('int'), u__constant__u=n)
+            else:
+                t.obj.f[('incomplete',)] = 1
+            return t, ('arr', U[name][1], n)
+        for n_, ln in (('int', 3), ('int', 4), ('int', None), ('uint', 3), ('char', 3)):
+            t, d = arr(n_, ln); add('%s[%s]' % (n_, ln or ''), t, d)
+        t, d = arr('int[3]', 2); add('int[2][3]', t, d)
+        t, d = arr('int[4]', 2); add('int[2][4]', t, d)
+        t, d = arr('int[]', 2) if False else arr('int[3]', None); add('int[][3]', t, d)
+        def func(retn, params, vararg=0):
+            ft = it.call('mktype', [ev(prog, 'TYPEFUNC'), 0])
+            ft.obj.f.update({('base',): U[retn][0], ('qual',): 0, ('size',): 0, ('align',): 0, ('incomplete',): 0, ('u', 'func', 'isvararg'): vararg, ('u', 'func', 'nparam'): len(params)})
+            prev = None; first = None
+            for pn in params:
+                pd = Obj('param', 'heap'); pd.f.update({('type',): U[pn][0], ('qual',): 0, ('next',): None, ('name',): None})
+                if prev is None: first = Ptr(pd, ())
+                else: prev.f[('next',)] = Ptr(pd, ())
+                prev = pd
+            ft.obj.f[('u', 'func', 'params')] = first
+            return ft, ('func', U[retn][1], tuple(U[p][1] for p in params), vararg)
+        for nm, (rn, ps, va) in {'int()': ('int', [], 0), 'int(int)': ('int', ['int'], 0), 'int(uint)': ('int', ['uint'], 0), 'int(int,long)': ('int', ['int', 'long'], 0), 'int(int,...)': ('int', ['int'], 1),
+                                 'long(int)': ('long', ['int'], 0), 'int(ptr(int))': ('int', ['ptr(int)'], 0), 'int(enum1)': ('int', ['enum1:uint'], 0)}.items():
+            t, d = func(rn, ps, va); add(nm, t, d)
+        for n in ('int(int)', 'int()', 'int[3]', 'int[]'):
+            t, d = ptr(n); add('ptr(%s)' % n, t, d)
+        out = {}
+        names = list(U)
+        for a in names:
+            for b in names:
+                try:
+                    out[(a, b)] = int(it.call(tc, [U[a][0], U[b][0]]))
+                except Terminal as t_:
+                    out[(a, b)] = 'terminal:' + t_.what
+        comp = {}
+        for a, b in (('int[3]', 'int[]'), ('int[]', 'int[3]'), ('int[3]', 'int[3]'), ('int[2][3]', 'int[][3]'), ('int[][3]', 'int[2][3]')):
+            c_ = it.call(tcomp, [U[a][0], U[b][0]])
+            comp[(a, b)] = (it.load(c_.obj, c_.path + ('incomplete',)), it.load(c_.obj, c_.path + ('size',)))
+        return out, {n: U[n][1] for n in names}, comp
+    runs = explore(prog, runner, {}, max_runs=2, on_unsupported='keep')
+    if len(runs) != 1 or runs[0].outcome != 'return':
+        raise AnalysisBroken('typecompatible: %s' % [(x.outcome, x.detail) for x in runs])
+    out, D, comp = runs[0].value
+    def compat(a, b):
+        if a == b: return True
+        ka, kb = a[0], b[0]
+        if ka == 'enum' and kb == 'basic': return a[2] == b[1]
+        if kb == 'enum' and ka == 'basic': return b[2] == a[1]
+        if ka != kb: return False
+        if ka in ('basic', 'struct', 'enum'): return False            # distinct basic types / distinct tags / two different enums
+        if ka == 'ptr': return a[2] == b[2] and compat(a[1], b[1])
+        if ka == 'arr': return compat(a[1], b[1]) and (a[2] is None or b[2] is None or a[2] == b[2])
+        if ka == 'func':
+            return compat(a[1], b[1]) and a[3] == b[3] and len(a[2]) == len(b[2]) and all(compat(x, y) for x, y in zip(a[2], b[2]))
+        return False
+    for (a, b), got in out.items():
+        want = compat(D[a], D[b])
+        r.instance(got == int(want), 'compatible:%s ~ %s' % (a, b), 'type.c:%s' % tc.get('line'), 'C11 6.2.7: %s; cproc: %s' % ('compatible' if want else 'not compatible', got))
+    for (a, b), (inc, size) in comp.items():
+        r.instance(not inc and size in (12, 24), 'composite:%s with %s' % (a, b), 'type.c:%s' % tcomp.get('line'), 'the composite type must have the known size (6.2.7p3); cproc yields incomplete=%s size=%s' % (inc, size))
+    r.exhaustive = False
+
+
 # ------------------------------------------------------------------ C05.d integer literal typing
 
 LIT_ROWS = {   # suffix class -> (decimal list, non-decimal list)   C11 6.4.4.1p5
@@ -922,6 +1012,7 @@ def run(chk, tier):
     chk.guard('C05.g', lambda: rule_unary(chk, prog, tier))
     chk.guard('C05.h', lambda: rule_conditional(chk, prog, tier))
     chk.guard('C05.i', lambda: rule_specifiers(chk, prog, tier))
+    chk.guard('C05.e', lambda: rule_compat(chk, prog, tier))
     chk.guard('C05.d', lambda: rule_literals(chk, prog, tier))
     chk.guard('C05.d2', lambda: rule_literal_base(chk, prog, tier))
     chk.guard('C05.f', lambda: rule_descriptors(chk, prog, tier))
